@@ -101,17 +101,20 @@ Definition find_margin_from_tally (arg ctally : option tally_dict) (sc : scf) (w
         | None => Err TypeError
         | Some t =>
             (* valid = np.sum([tally[c] for c in self.contest.candidates]); q = valid / cards;
-               p = tally[self.winner] / valid; margin = q * (p / share_to_win - 1)      (numpy scalars) *)
+               p = tally[self.winner] / valid if valid else 0      (tally[winner] not read when valid == 0);
+               margin = q * (p / share_to_win - 1)      (numpy scalars) *)
             match tsum t candidates with
             | None => Err KeyError
             | Some valid =>
                 let q := xdiv (zq valid) (zq cards) in
-                match tget t w with
-                | None => Err KeyError
-                | Some tw =>
-                    let p := xdiv (zq tw) (zq valid) in
-                    Val (xmul q (xsub (xdiv p (Fin f)) (Fin 1)))
-                end
+                if (valid =? 0)%Z then Val (xmul q (xsub (xdiv (Fin 0) (Fin f)) (Fin 1)))
+                else
+                  match tget t w with
+                  | None => Err KeyError
+                  | Some tw =>
+                      let p := xdiv (zq tw) (zq valid) in
+                      Val (xmul q (xsub (xdiv p (Fin f)) (Fin 1)))
+                  end
             end
         end
   | IRV => Err NotImplementedError
